@@ -1,5 +1,6 @@
 import Okane.Lemmas.NoCrash
 import Okane.Lemmas.Diag
+import Okane.Props.C11
 /-!
 # C06 — every input yields output or a diagnostic: no crash, no hang
 
@@ -26,8 +27,19 @@ def C06_format {ε α : Type} (format : List Char → Outcome ε α) : Prop :=
 
 /-- **C06_load** (statement): loading from any finite file system, any root, with fuel `|files| + 1`, never
 crashes — in particular include cycles end in `err`, not in `fuelOut`. -/
-def C06_load {φ ρ ε α : Type} (size : φ → Nat) (load : Nat → φ → ρ → Outcome ε α) : Prop :=
+def C06_load_stmt {φ ρ ε α : Type} (size : φ → Nat) (load : Nat → φ → ρ → Outcome ε α) : Prop :=
   ∀ (fs : φ) (root : ρ), (load (size fs + 1) fs root).crashes = false
+
+/-- **C06_load.**  Over the loader model (`Model/Load.lean`, generic in the `FileSystem` like the Rust): for any file
+system whose readable paths are listed by `readable` and whose `read` / `glob` do not crash themselves, loading any
+root with fuel `|readable| + 1` ends in `ok` or in a `LoadError` — never in `fuelOut` (the recursion the pinned tree
+ran forever on a self-include, finding F8) and never in a panic.  Include cycles therefore end in an error
+(`C11_cycle`: `RecursiveInclude`).  Proved in `Props/C11.lean` (`C11_terminates_load`). -/
+theorem C06_load (fs : Load.FSI) (readable : List Load.Path)
+    (hread : ∀ q c, fs.read q = .ok c → q ∈ readable)
+    (hreadc : ∀ q, (fs.read q).crashes = false) (hglobc : ∀ s, (fs.glob s).crashes = false) (root : Load.Path) :
+    (Load.load fs (readable.length + 1) root).status.crashes = false :=
+  Load.C11_terminates_load fs readable hread hreadc hglobc (readable.length + 1) (Nat.lt_succ_self _) root
 
 /-- **C06_prefix**: totality over all texts gives totality over every prefix of every text ("cut at every
 character"), for any entry point. -/
@@ -143,5 +155,17 @@ example : findBoundary (encode "aé".toList) 4 2 = .ok (some 3) := by decide
 -- with too little fuel the model does report `fuelOut`: the bound is not vacuous
 example : findBoundary (encode "a日".toList) 1 2 = .fuelOut := by decide
 example : (clip ⟨10, 20⟩ ⟨3, 5⟩).crashes = true := by decide
+
+-- C06_load: a file that includes itself ends in `RecursiveInclude` with the fuel of the theorem (|readable| + 1 = 2);
+-- with less fuel the model does say `fuelOut`, so the bound is not vacuous
+def selfRoot : Load.Path := [.root, .normal "r", .normal "a.ledger"]
+def fsSelf : Load.FSI where
+  canon := id
+  read := fun p => if p = selfRoot then .ok ⟨[.include "a.ledger"], false⟩ else .err .notFound
+  glob := fun _ => .ok [selfRoot]
+example : (Load.load fsSelf 2 selfRoot).status = .err (.recursiveInclude selfRoot) := by decide
+example : (Load.load fsSelf 1 selfRoot).status = .fuelOut := by decide
+example : ∀ q c, fsSelf.read q = .ok c → q ∈ [selfRoot] := by
+  intro q c h; simp only [fsSelf] at h; split at h <;> simp_all
 
 end Okane.C06
